@@ -28,7 +28,7 @@ theorem C10_leaf_agreement_suffices (S1 S2 : Sem) (hl : S1.leaf = S2.leaf) (hc :
 for a `bool` request. -/
 theorem C10_bool_leaf (c : Cfg) (b : Bool) :
     textLeaf c .bool (.bool b) = valLeaf c .bool (.bool b) := by
-  cases b <;> simp [textLeaf, leafText, textScalarVal, valLeaf, leafPrim, Scalar.toBool, visitPrim]
+  cases b <;> simp [textLeaf, leafText, textScalarVal, valLeaf, u16Leaf, leafPrim, Scalar.toBool, visitPrim]
 
 /-- the decimal text of an unsigned integer is all digits and reads back (Horner value) as it. -/
 theorem C10_decimal_reads_back (n : Nat) : decFrom (fmtNat n) 0 = n ∧ allDigits (fmtNat n) = true :=
@@ -38,7 +38,7 @@ theorem C10_decimal_reads_back (n : Nat) : decFrom (fmtNat n) 0 = n ∧ allDigit
 request (`Scalar::to_u64` of the rendering, C11 model). -/
 theorem C10_uint_leaf (c : Cfg) (n : Nat) (h : n ≤ Scalar.U64_MAX) :
     textLeaf c .u64 (.u64 n) = valLeaf c .u64 (.u64 n) := by
-  simp [textLeaf, leafText, textScalarVal, valLeaf, leafPrim, toU64_fmtNat n h]
+  simp [textLeaf, leafText, textScalarVal, valLeaf, u16Leaf, leafPrim, toU64_fmtNat n h]
 
 example : (18446744073709551615 : Nat) ≤ Scalar.U64_MAX := by decide
 
@@ -48,7 +48,7 @@ the magnitude 2^63 (i64::MIN) before applying the sign; once the repaired `to_i6
 is in Model/Scalar.lean the range becomes -2^63..2^63-1. -/
 theorem C10_int_leaf (c : Cfg) (n : Int) (h : n.natAbs ≤ Scalar.I64_MAX) :
     textLeaf c .i64 (.i64 n) = valLeaf c .i64 (.i64 n) ∧ textLeaf c .i64 (.i32 n) = valLeaf c .i64 (.i32 n) := by
-  simp [textLeaf, leafText, textScalarVal, valLeaf, leafPrim, toI64_fmtInt n h, visitPrim, Prim.asInt]
+  simp [textLeaf, leafText, textScalarVal, valLeaf, u16Leaf, leafPrim, toI64_fmtInt n h, visitPrim, Prim.asInt]
 
 example : (-9223372036854775807 : Int).natAbs ≤ Scalar.I64_MAX := by decide
 
@@ -57,7 +57,7 @@ quoted or not. -/
 theorem C10_string_leaf (c : Cfg) (b : Bytes) :
     textLeaf c .str (.quoted b) = valLeaf c .str (.quoted b) ∧
     textLeaf c .str (.unquoted b) = valLeaf c .str (.unquoted b) := by
-  simp [textLeaf, leafText, textScalarVal, valLeaf, leafPrim]
+  simp [textLeaf, leafText, textScalarVal, valLeaf, u16Leaf, leafPrim]
 
 /-- a key written as a resolvable token id is the same key as its name written as text. -/
 theorem C10_key_token (c : Cfg) (id : Nat) (name : Bytes) (h : resolve c id = some name)
